@@ -467,7 +467,7 @@ pub const CASE_VARIANTS: &[&str] = &["Foo", "foo", "FOO", "fOO", "fooBar", "FooB
 
 pub const SEPARATORS: &[&str] = &["a-b", "a.b", "a_b", "aB", "AB", "A_B", "a--b", "a-.b", "a_-b", "ab", "Ab", "a-b-c", "a.b.c", "a_b_c", "aBC", "ABc"];
 
-pub const PREFIXED: &[&str] = &["K:u", "ȺȺ:x", "ΩΩ:a", "İ:a", "ẞ:b", "Å:c", "p:x", "q:x", "p:a", "ns:item", "p:type", "xml:lang", "xml:space", "p:a-b", "P:X", "p:String"];
+pub const PREFIXED: &[&str] = &["xsi:nil", "xsi:type", "xsi:schemaLocation", "xlink:href", "K:u", "ȺȺ:x", "ΩΩ:a", "İ:a", "ẞ:b", "Å:c", "p:x", "q:x", "p:a", "ns:item", "p:type", "xml:lang", "xml:space", "p:a-b", "P:X", "p:String"];
 
 pub const XMLNS: &[&str] = &["xmlns", "xmlns:p", "xmlns:q", "xmlns:xsi"];
 
